@@ -247,6 +247,15 @@ func visitInline(fw *formatWriter, source []byte, cursor *commonmark.Cursor) boo
 		return false
 	case commonmark.InfoStringKind, commonmark.LinkDestinationKind, commonmark.LinkLabelKind, commonmark.LinkTitleKind:
 		return false
+	case commonmark.SoftLineBreakKind:
+		if child.Span().Len() == 0 {
+			// The parser adds an empty soft line break
+			// to a code block that ends at the end of input without a line ending.
+			fw.s("\n")
+			return false
+		}
+		fw.b(spanSlice(source, child.Span()))
+		return false
 	default:
 		if !child.Span().IsValid() {
 			return false
